@@ -199,6 +199,8 @@ func c15GenChain(t *rapid.T, window time.Duration, maxLen int) []*c15Block {
 	const gap = 6 * time.Second
 	insideSlack := window - margin - time.Duration(n)*gap
 	insideBase := time.Duration(rapid.Int64Range(0, int64(insideSlack)).Draw(t, "insideAge"))
+	aheadOfClock := rapid.IntRange(0, 3).Draw(t, "aheadOfClock") == 0
+	aheadBy := time.Duration(rapid.IntRange(1, 90).Draw(t, "aheadBySec")) * time.Second
 	outsideExtra := time.Duration(rapid.Int64Range(0, int64(2*window)).Draw(t, "outsideAge"))
 	now := time.Now().UTC()
 
@@ -223,6 +225,11 @@ func c15GenChain(t *rapid.T, window time.Duration, maxLen int) []*c15Block {
 		age := insideBase + time.Duration(n-i)*gap
 		if !b.inside {
 			age = window + margin + outsideExtra + time.Duration(n-i)*gap
+		}
+		if aheadOfClock && i == n-1 && b.inside {
+			// the newest block is stamped ahead of this node's clock (ordinary clock skew between the
+			// proposer and the bridge): it is as fresh as a block can be, i.e. inside the window
+			age = -aheadBy
 		}
 		b.hdr = types.Header{
 			Version:            cmtversion.Consensus{Block: 11, App: appconsts.Version},
